@@ -1,5 +1,6 @@
 import Driver.Proto
 import ScrapliModel.Netconf.Hello
+import ScrapliModel.Netconf.HelloState
 namespace Driver.C09
 open Scrapli Scrapli.Chan Scrapli.Netconf.Hello
 
@@ -51,7 +52,41 @@ def normLayout (L : Layout) : Layout :=
 
 def ret : Bytes := Gen.Channel.DefaultReturnChar
 
+/-! history requests: `hist <pref> <depth> <event>…` with events `p<cap hex>` (probe), `c` (close),
+`o<chunks>` (Open; the reads of that session as the transport delivered them). Answer: the
+observation of every event under the as-built model (channel single-use) and, after ` | `, under
+the re-openable variant. -/
+
+def parseEv (pref : Bytes) (depth : Nat) (tok : String) : Option Ev :=
+  if tok == "c" then some .close
+  else if tok.startsWith "p" then (fromHex (tok.drop 1).toString).map Ev.probe
+  else if tok.startsWith "o" then
+    (hexList (tok.drop 1).toString).map fun chunks =>
+      let chunksN := chunks.map (normalizeChunk stripAnsi)
+      match readUntil (fun rb => delimRx (window rb depth)) chunksN [] with
+      | none => Ev.openNoHello
+      | some (b, _) => Ev.openHello (parseHello b) pref
+  else none
+
+def showObs : Obs → String
+  | .probed has caps sid sel => s!"P:{b2s has}:{showHexList caps}:{sid}:{toHex sel}"
+  | .opened v => s!"O:{verStr v}"
+  | .openErr .netconf => "E:netconf"
+  | .openErr .timeout => "E:timeout"
+  | .openDead => "E:dead"
+  | .closed => "C"
+
+def handleHist (pref depth : String) (evs : List String) : String :=
+  match fromHex pref, depth.toNat?, evs.mapM (fun t => (fromHex pref).bind fun p => depth.toNat?.bind fun d => parseEv p d t) with
+  | some _, some _, some evs =>
+    let a := run false false DState.init evs
+    let b := run false true DState.init evs
+    let sh := fun (l : List Obs) => if l.isEmpty then "." else ";".intercalate (l.map showObs)
+    s!"{sh a} | {sh b}"
+  | _, _, _ => "bad-op"
+
 def handle : List String → String
+  | "hist" :: pref :: depth :: evs => handleHist pref depth evs
   | ["open", pref, depth, decl, pfx, attrs, w0, w1, w2, w3, w4, uris, wss, sid, suffix, chunks] =>
     match fromHex pref, depth.toNat?, optHex decl, fromHex pfx, fromHex attrs, fromHex w0, fromHex w1,
       fromHex w2, fromHex w3, fromHex w4, hexList uris, hexList wss, optHex sid, fromHex suffix,
